@@ -456,7 +456,9 @@ class Interp:
     def call_func(self, fn, args, kwargs):
         q = fn.qualname
         if fn.closure is None and q in self.summaries:
-            return self.summaries[q](self, fn, list(args), dict(kwargs))
+            r = self.summaries[q](self, fn, list(args), dict(kwargs))
+            if r is not NotImplemented:  # a summary may decline (e.g. the outermost call of a recursive function)
+                return r
         for h in self.call_hooks:
             h(self, fn, args, kwargs)
         self.repo.note_used(fn)
